@@ -327,5 +327,9 @@ def obligations(tier):
         X("no_position", no_position, parts=[{"world": "space"}, {"world": "grid"}], labels=("checked",), timeout=120, encoded=enc),
         X("history", history, parts=_hist_parts(k, [("space", False), ("grid", False)] + ([("gridlike", True)] if tier != "quick" else [])),
           labels=("done",), timeout=600, group=4, encoded=enc, bounds={"operations": "<= %d, 2 agents, world 4x3" % k}),
+        K("move_fp", k_move_fp, timeout=300, encoded=(SpaceWorld.move,),
+          bounds={"doubles": "all finite; extents 0 or >= 1; any I8 position; non-wrapping continuous world"}),
+        K("move_to_fp", k_move_to_fp, timeout=300, encoded=(SpaceWorld.move_to,), bounds={"doubles": "all finite; extents 0 or >= 1"}),
+        K("place_fp", k_place_fp, timeout=300, encoded=(SpaceWorld.add_agent,), bounds={"doubles": "all finite; extents 0 or >= 1"}),
     ]
     return obs
